@@ -332,6 +332,7 @@ Record Pres (tv keep : bool) (c c' : circuit) : Prop := mkPres {
   pr_keys : forall l, has_gate c' l = true -> has_gate c l = true;
   pr_inputs : inputs c' = filter (has_gate c') (inputs c);
   pr_keep : keep = true -> inputs c' = inputs c;
+  pr_outs : length (outputs c') = length (outputs c);
   pr_fun : forall a, tv = true \/ total_on c a -> out_equiv c c' a;
   pr_size : size c' <= size c }.
 
@@ -347,6 +348,7 @@ Proof.
   - intros l. eapply sim_has_gate; eassumption.
   - exact Hi.
   - exact Hk.
+  - apply (Forall2_length' _ _ _ Ho).
   - intros a Ha. eapply rebuilt_out_equiv; [exact Hr|apply HR; exact Ha].
   - eapply sim_size; [exact Hs|apply (wf_gkeys c' W)].
 Qed.
@@ -375,12 +377,13 @@ Qed.
 Lemma Pres_trans tv1 k1 tv2 k2 c c1 c2 :
   WF c -> Pres tv1 k1 c c1 -> Pres tv2 k2 c1 c2 -> Pres (tv1 && tv2) (k1 && k2) c c2.
 Proof.
-  intros W [W1 A1 K1 I1 P1 F1 S1] [W2 A2 K2 I2 P2 F2 S2]. constructor.
+  intros W [W1 A1 K1 I1 P1 O1 F1 S1] [W2 A2 K2 I2 P2 O2 F2 S2]. constructor.
   - exact W2.
   - exact A2.
   - intros l Hl. apply K1, K2, Hl.
   - rewrite I2, I1. apply filter_filter_sub. intros x _. apply K2.
   - intros Hk. apply andb_true_iff in Hk. destruct Hk as [Hk1 Hk2]. rewrite (P2 Hk2). apply P1, Hk1.
+  - congruence.
   - intros a Ha. eapply out_equiv_trans.
     + apply F1. destruct Ha as [Ha|Ha]; [left; apply andb_true_iff in Ha; tauto|right; exact Ha].
     + apply F2. destruct Ha as [Ha|Ha]; [left; apply andb_true_iff in Ha; tauto|right].
@@ -392,6 +395,24 @@ Qed.
 Lemma Pres_weaken tv k tv' k' c c' :
   (tv' = true -> tv = true) -> (k' = true -> k = true) -> Pres tv k c c' -> Pres tv' k' c c'.
 Proof.
-  intros Ht Hk [W1 A1 K1 I1 P1 F1 S1]. constructor; auto.
+  intros Ht Hk [W1 A1 K1 I1 P1 O1 F1 S1]. constructor; auto.
   intros a [Ha|Ha]; apply F1; [left; auto|right; exact Ha].
 Qed.
+
+(* inputs that are no longer gates of the result cannot matter: the assignment may be changed
+   arbitrarily outside the inputs of the result *)
+Lemma Pres_restrict tv k c c' a a' d d' i :
+  Pres tv k c c' -> tv = true \/ total_on c a ->
+  (forall x, In x (inputs c') -> aval a x = aval a' x) -> i < length (outputs c) ->
+  forall v, Eval c' a' (nth i (outputs c') d') v <-> Eval c a (nth i (outputs c) d) v.
+Proof.
+  intros P Ha Hag Hi v.
+  rewrite <- (out_equiv_nth c c' a d d' i (pr_fun _ _ _ _ P a Ha) Hi v).
+  pose proof (pr_wf _ _ _ _ P) as W'.
+  split; apply Eval_ext; intros x g Hg Ht; [symmetry|]; apply Hag, (wf_inputs c' W'); eauto.
+Qed.
+
+Lemma Pres_nth tv k c c' a d d' i :
+  Pres tv k c c' -> tv = true \/ total_on c a -> i < length (outputs c) ->
+  forall v, Eval c' a (nth i (outputs c') d') v <-> Eval c a (nth i (outputs c) d) v.
+Proof. intros P Ha Hi. eapply out_equiv_nth; [apply (pr_fun _ _ _ _ P a Ha)|exact Hi]. Qed.
